@@ -1,0 +1,64 @@
+//go:build verif
+
+package content
+
+// Contracts for gocv (contract-based deductive verification; see /verif/DESIGN.md).
+// Comment-only file: with the build tag off it is not compiled at all.
+
+//@ package content
+//@ import io "io"
+//@ import digest "github.com/opencontainers/go-digest"
+//@ import ocispec "github.com/opencontainers/image-spec/specs-go/v1"
+//@
+//@ ghost descOf(vr *VerifyReader) ocispec.Descriptor
+//@ ghost srcOf(vr *VerifyReader) io.Reader
+//@
+//@ pure factsNow(vr *VerifyReader) bool = vr.base != nil && vr.base.N == 0 && delivered(vr.base) == descOf(vr).Size
+//@      && atEOF(vr.base.R) && digestOK(vr.verifier)
+//@
+//@ pure wf(vr *VerifyReader) bool = vr != nil && (vr.base == nil ==> vr.err != nil && vr.err != io.EOF)
+//@      && (vr.base != nil ==> vr.base.N >= 0 && delivered(vr.base) >= 0 && vr.base.N + delivered(vr.base) == descOf(vr).Size
+//@             && vr.base.R != nil && vr.verifier != nil && teeInto(vr.base.R, srcOf(vr), vr.verifier)
+//@             && expects(vr.verifier, descOf(vr).Digest))
+//@      && (vr.err == io.EOF ==> vr.base != nil && vr.base.N == 0)
+//@      && (vr.base != nil ==> !typeIs(vr.base.R, *VerifyReader))
+//@      && (vr.verified ==> vr.err == io.EOF && matched(srcOf(vr), descOf(vr)))
+//@
+//@ pure readerInv(r io.Reader) bool = typeIs(r, *VerifyReader) ==> wf(as(r, *VerifyReader))
+//@
+//@ func NewVerifyReader
+//@   exit set descOf(result) = desc
+//@   exit set srcOf(result) = r
+//@   exit set delivered(result.base) = 0
+//@   ensures [C05:wf-size-nonnegative] wf(result)
+//@   ensures [C05:remembers] descOf(result) == desc && srcOf(result) == r && !result.verified
+//@   modifies alloc, new VerifyReader.*, new io.LimitedReader.*, new ghost.descOf, new ghost.srcOf, new ghost.delivered, elems[any]
+//@
+//@ func (*VerifyReader).Read
+//@   requires [wf] wf(vr)
+//@   ensures [C05:wf] wf(vr)
+//@   ensures [C05:eof-means-complete] err == io.EOF ==> vr.base != nil && vr.base.N == 0
+//@   ensures [C05:sticky] old(vr.err) != nil ==> n == 0 && err == old(vr.err)
+//@   modifies VerifyReader.err, io.LimitedReader.N, ghost.delivered, ghost.atEOF, ghost.digestOK, elems[byte], alloc
+//@
+//@ func ensureEOF
+//@   requires [reader-inv] readerInv(r)
+//@   ensures [C05:nil-means-eof] result == nil ==> atEOF(r)
+//@   ensures [monotone] forall s io.Reader, d ocispec.Descriptor :: old(matched(s, d)) ==> matched(s, d)
+//@   modifies ghost.atEOF, ghost.digestOK, ghost.delivered, io.LimitedReader.N, VerifyReader.err, elems[byte], alloc
+//@
+//@ func (*VerifyReader).Verify
+//@   requires [wf] wf(vr)
+//@   exit set matched(srcOf(vr), descOf(vr)) = old(matched(srcOf(vr), descOf(vr))) || factsNow(vr)
+//@   call ensureEOF assume [no-reentry] vr.err == old(vr.err) && vr.base.N == old(vr.base.N) && delivered(vr.base) == old(delivered(vr.base))
+//@   ensures [C05:wf] wf(vr)
+//@   ensures [C05:nil-means-exact] result == nil ==> matched(srcOf(vr), descOf(vr))
+//@   ensures [C05:early] old(vr.err) == nil && old(vr.base.N) > 0 ==> result == errEarlyVerify
+//@   ensures [C05:idempotent] old(vr.verified) ==> result == nil
+//@   ensures [monotone] forall s io.Reader, d ocispec.Descriptor :: old(matched(s, d)) ==> matched(s, d)
+//@   modifies VerifyReader.err, VerifyReader.verified, ghost.matched, ghost.atEOF, ghost.digestOK, ghost.delivered, io.LimitedReader.N, elems[byte], alloc
+//@
+//@ func ReadAll
+//@   ensures [C05:nil-means-exact] result1 == nil ==> desc.Size >= 0 && len(result0) == desc.Size && matched(r, desc)
+//@   ensures [C05:negative-size] desc.Size < 0 ==> result1 == ErrInvalidDescriptorSize
+//@   ensures [monotone] forall s io.Reader, d ocispec.Descriptor :: old(matched(s, d)) ==> matched(s, d)
